@@ -206,6 +206,97 @@ theorem unshared_lookup_id (leader : Msg) (owned : Bool) (reqId next : Nat) :
     (groupLookupResult true owned leader reqId next).1.id = reqId := by
   simp [groupLookupResult]
 
+/-! ### job-owned strict-path storage -/
+
+/-- **The carrier starts every request empty.** After `reset` the carrier is
+the same whatever the previous request pinned or provided; no key is pinned. -/
+theorem carrier_reset_erases (c₁ c₂ : Carrier) (d k : Nat) :
+    c₁.reset d = c₂.reset d ∧ (k ≠ 0 → (c₁.reset d).pinned k = none) ∧ (c₁.reset d).provider = false := by
+  refine ⟨rfl, ?_, rfl⟩
+  intro hk
+  have h0 : (0 == k) = false := by
+    cases k with
+    | zero => exact absurd rfl hk
+    | succ n => rfl
+  simp [Carrier.reset, Carrier.pinned, List.find?, h0]
+
+open SdnsVerif.Gen.C10 in
+/-- every strict entry resets the carrier before it serves -/
+theorem carrier_reset_on_every_entry :
+    1 ≤ carrier_reset_in_serveraw ∧ 1 ≤ carrier_reset_in_serverawinline ∧ 1 ≤ carrier_reset_in_serverawreplay := by
+  decide
+
+/-- **The edns writer slot carries nothing from one request to the next.** For
+any sequence of requests served through ONE job-owned slot, each reply's
+COOKIE option is its own request's client cookie — none when the request sent
+none (or no OPT at all) — because the slot leaves every serve wiped. -/
+theorem edns_slot_noninterference (qs : List EdnsReq) (hq : ∀ q ∈ qs, q.hasOpt = false → q.cookie = none) :
+    ednsMany {} qs = qs.map (·.cookie) := by
+  induction qs with
+  | nil => rfl
+  | cons q t ih =>
+    have hq0 := hq q (List.mem_cons_self)
+    simp only [ednsMany, List.map_cons]
+    have h2 : (ednsServe {} q).2 = {} := rfl
+    rw [h2, ih (fun x hx => hq x (List.mem_cons_of_mem _ hx))]
+    congr 1
+    cases hc : q.cookie with
+    | none => cases ho : q.hasOpt <;> simp [ednsServe, EdnsSlot.enter, EdnsSlot.replyCookie, hc, ho]
+    | some c =>
+      have ho : q.hasOpt = true := by
+        cases h : q.hasOpt with
+        | true => rfl
+        | false => rw [hq0 h] at hc; cases hc
+      simp [ednsServe, EdnsSlot.enter, EdnsSlot.replyCookie, hc, ho]
+
+/-! ### failover, chain pool -/
+
+/-- **The failover writer answers under the client's transaction.** Whatever
+the fallback servers do — errors, SERVFAIL-class responses that are retained,
+a usable answer, in any order and number — and whether failover engages at all
+(RD, primary rcode, servers configured), the one reply handed on carries the
+id of the primary's reply, i.e. the client's. -/
+theorem failover_reply_id (servers : List FoOutcome) (m : FoMsg) (rd : Bool) :
+    (failoverWrite servers m rd).id = m.id := by
+  unfold failoverWrite
+  split
+  · rfl
+  · exact failoverLoop_id m servers none (by simp)
+
+/-- when every answering fallback fails too, the client gets the FIRST retained
+failure (under its own id), not the primary's -/
+theorem failover_all_fail (m : FoMsg) (eid mk : Nat) (rest : List FoOutcome)
+    (hrest : ∀ o ∈ rest, o = .err ∨ ∃ e k, o = .resp e 2 k) (hm : m.rcode = 2) :
+    failoverWrite (.resp eid 2 mk :: rest) m true = { id := m.id, rcode := 2, mark := mk } := by
+  have key : ∀ (l : List FoOutcome) (r : FoMsg), (∀ o ∈ l, o = .err ∨ ∃ e k, o = .resp e 2 k) →
+      failoverLoop m l (some r) = r := by
+    intro l
+    induction l with
+    | nil => intro r _; simp [failoverLoop]
+    | cons o t ih =>
+      intro r h
+      rcases h o (List.mem_cons_self) with rfl | ⟨e, k, rfl⟩
+      · simpa [failoverLoop] using ih r (fun x hx => h x (List.mem_cons_of_mem _ hx))
+      · simpa [failoverLoop] using ih r (fun x hx => h x (List.mem_cons_of_mem _ hx))
+  simp [failoverWrite, hm, failoverLoop, key rest _ hrest]
+
+/-- **A pooled chain is in one request's hands at most.** Under any sequence
+of `NewChain` / `PutChain` where a request only returns a chain it holds (the
+guard is what "exactly one deferred PutChain per NewChain" gives; an attempted
+second put changes nothing), no pointer is ever parked twice, held twice, or
+parked while held — so no two overlapping requests share a chain. -/
+theorem chain_pool_exclusive (steps : List PoolStep) :
+    ((({} : ChainPool).run steps).pooled ++ (({} : ChainPool).run steps).held).Nodup :=
+  (pool_run_inv steps {} (by simp [PoolInv])).1
+
+open SdnsVerif.Gen.C10 in
+/-- the decoded entries draw one chain and return it exactly once (tie of the
+`put` guard above to the tree) -/
+theorem chain_pool_put_once :
+    servemsgby_newchain_calls = 1 ∧ servemsgby_putchain_calls = 1 ∧
+    queryer_newchain_calls = 1 ∧ queryer_putchain_calls = 1 := by
+  decide
+
 /-! ### DNS-over-QUIC streams -/
 
 /-- **Each QUIC stream carries exactly its own reply.** For any interleaving of
@@ -330,6 +421,21 @@ example : (serveStream {} program 4 (clientStream [qWrite, qResp, qWrite]) [true
 -- share: three followers of one flight
 example : (shareAll { addr := 1, id := 500, body := 7 } [(10, false), (20, true), (30, true)] 2).map (fun m => (m.addr, m.id)) = [(2, 10), (3, 20), (4, 30)] := by
   decide
+
+-- edns slot: cookie, then OPT without cookie, then no OPT, then another cookie
+example : ednsMany {} [{ hasOpt := true, cookie := some 7 }, { hasOpt := true }, { hasOpt := false },
+    { hasOpt := true, cookie := some 9, doBit := true }] = [some 7, none, none, some 9] := by decide
+-- carrier: a pin of the previous request is gone after reset
+example : (((({} : Carrier).tryPin 5 105).1.reset 1).pinned 5) = none ∧ ((({} : Carrier).tryPin 5 105).1.pinned 5) = some 105 := by
+  decide
+
+-- failover: dead server, two SERVFAILs: the first retained failure leaves, under the client's id 77
+example : failoverWrite [.err, .resp 9001 2 5, .resp 9002 2 6] { id := 77, rcode := 2, mark := 0 } true =
+    { id := 77, rcode := 2, mark := 5 } := by decide
+example : failoverWrite [.resp 9001 2 5, .resp 9002 0 11] { id := 77, rcode := 2, mark := 0 } true =
+    { id := 77, rcode := 0, mark := 11 } := by decide
+-- pool: a double put of chain 0 is refused; the two later requests hold different chains
+example : (({} : ChainPool).run [.get, .put 0, .put 0, .get, .get]).held = [1, 0] := by decide
 
 -- doq: three streams, the first handler finishes last: its reply still leaves on stream 4
 example : (({} : DoqConn).run [.accept 4, .accept 8, .accept 12, .complete 2 (some [9, 9, 3]), .complete 1 none,
